@@ -84,11 +84,11 @@ def mk_geometry(case, element):
             cx = pts[0][1] * pts[1][2] - pts[0][2] * pts[1][1]
             cy = pts[0][2] * pts[1][0] - pts[0][0] * pts[1][2]
             cz = pts[0][0] * pts[1][1] - pts[0][1] * pts[1][0]
-            ctx.assume(Not(And(eq(cx, 0), eq(cy, 0), eq(cz, 0))))
+            ctx.assume(ge(cx * cx + cy * cy + cz * cz, 0.01))      # clearly not collinear
         else:
             d = ((pts[0][1] * pts[1][2] - pts[0][2] * pts[1][1]) * pts[2][0] + (pts[0][2] * pts[1][0] - pts[0][0] * pts[1][2]) * pts[2][1]
                  + (pts[0][0] * pts[1][1] - pts[0][1] * pts[1][0]) * pts[2][2])
-            ctx.assume(Not(eq(d, 0)))
+            ctx.assume(Or(ge(d, 0.1), le(d, -0.1)))       # clearly not coplanar
         for i, p in enumerate(pts):
             b = H.atom('C%d' % i, 'LIG', 1, 'A', c.x + p[0], c.y + p[1], c.z + p[2])
             c.bonded_atoms.append(b)
@@ -113,6 +113,66 @@ def mk_geometry(case, element):
             if case == 'trigonal-2':
                 # -a1-a2 makes an obtuse angle with both neighbours (for any geometry)
                 ctx.claim('hydrogen-on-the-open-side', And(*[le(dx * p[0] + dy * p[1] + dz * p[2], 0) for p in pts]))
+    return body
+
+
+def mk_order_independence(case):
+    def body(ctx):
+        """the constructions are symmetric in the neighbours: the order of
+        atom.bonded_atoms (which depends on the frame through the cell list)
+        does not influence the constructed position"""
+        import propka.protonate as P
+        prot = P.Protonate()
+        n = 2 if case == 'trigonal-2' else 3
+
+        def ex(v):
+            # fixed coordinates as exact symbolic numerals: otherwise sums of two concrete floats are
+            # rounded natively while sums with a symbolic operand are exact, and orders differ by 1e-17
+            if ctx.native:
+                return v
+            from symx import SReal, rv
+            return SReal(rv(v))
+        # every neighbour has a symbolic coordinate, so that no bond vector is normalised natively (in rounded doubles)
+        pts = [(ctx.real('x0', -2, 2), ctx.real('y0', -2, 2), ex(-1.0)), (ctx.real('x1', 1.0, 1.5), ex(0.75), ex(-0.5)), (ex(-0.5), ctx.real('y2', -1.0, -0.5), ex(1.0))][:n]
+        ctx.assume(Not(And(eq(pts[0][0], 0), eq(pts[0][1], 0), eq(pts[0][2], 0))))
+        if n == 2:
+            cx = pts[0][1] * pts[1][2] - pts[0][2] * pts[1][1]
+            cy = pts[0][2] * pts[1][0] - pts[0][0] * pts[1][2]
+            cz = pts[0][0] * pts[1][1] - pts[0][1] * pts[1][0]
+            ctx.assume(ge(cx * cx + cy * cy + cz * cz, 0.01))      # clearly not collinear
+        else:
+            d = ((pts[0][1] * pts[1][2] - pts[0][2] * pts[1][1]) * pts[2][0] + (pts[0][2] * pts[1][0] - pts[0][0] * pts[1][2]) * pts[2][1]
+                 + (pts[0][0] * pts[1][1] - pts[0][1] * pts[1][0]) * pts[2][2])
+            ctx.assume(Or(ge(d, 0.1), le(d, -0.1)))       # clearly not coplanar
+
+        def build(order):
+            conf = H.conformation()
+            c = H.atom('N', 'LIG', 1, 'A', ex(0.25), ex(-1.5), ex(2.0))
+            conf.add_atom(c)
+            for i in order:
+                p = pts[i]
+                b = H.atom('C%d' % i, 'LIG', 1, 'A', c.x + p[0], c.y + p[1], c.z + p[2])
+                c.bonded_atoms.append(b)
+                b.bonded_atoms.append(c)
+                conf.add_atom(b)
+            c.number_of_protons_to_add = 1
+            captured, old = _capture(P.Protonate)
+            try:
+                (prot.trigonal if case == 'trigonal-2' else prot.tetrahedral)(c)
+            finally:
+                P.Protonate.add_proton = old
+            return captured
+        ref = build(list(range(n)))
+        for order in itertools.permutations(range(n)):
+            if list(order) == list(range(n)):
+                continue
+            got = build(list(order))
+            ctx.claim('one-hydrogen', len(ref) == 1 and len(got) == 1)
+            if len(ref) == 1 and len(got) == 1:
+                a, b = ref[0][1], got[0][1]
+                # 1e-9: unit vectors of the fixed neighbours are computed natively (rounded doubles), so different
+                # summation orders differ by ~1e-17 even where the real-number results are identical
+                ctx.claim('independent-of-neighbour-order', And(eq(a.x, b.x), eq(a.y, b.y), eq(a.z, b.z)), detail='order %r' % (order,))
     return body
 
 
@@ -205,6 +265,12 @@ def obligations(tier):
                               code=[P + 'trigonal', P + 'tetrahedral', P + 'set_bond_distance', 'propka/vector_algebra.py:Vector.rescale'],
                               bounds='trigonal-2: centre anywhere in [-3,3]^3, 5 free neighbour coordinates in [-2,2]; tetrahedral-3: fixed centre, one neighbour fully symbolic in [-2,2]^3, two fixed; regular geometry assumed (not collinear/coplanar)',
                               claim_doc='|X-H|^2 == tabulated length^2 exactly before rounding; H on the side opposite to the neighbours', query_timeout_ms=60000, wall_s=200))
+    for case in ('trigonal-2', 'tetrahedral-3'):
+        obs.append(Obligation('O2-construction-order-independence[%s]' % case, mk_order_independence(case),
+                              code=[P + 'trigonal', P + 'tetrahedral'],
+                              bounds='%s: 4 symbolic neighbour coordinates (each neighbour has at least one); every permutation of the bond list' % case,
+                              claim_doc='same constructed position for every order of atom.bonded_atoms', query_timeout_ms=120000, wall_s=600,
+                              tiers=('quick', 'thorough') if case == 'trigonal-2' else ('thorough',)))
     templates = ['tri_HIS', 'tri_ARG', 'tri_ASN', 'tri_GLN', 'tri_TRP', 'tri_PRO'] if tier == 'quick' else [
         'tri_HIS', 'tri_ARG', 'tri_ASN', 'tri_GLN', 'tri_TRP', 'tri_PRO', 'tri_ASP', 'tri_LYS', 'tri_TYR', 'tri_SER', 'pep8', 'pair_GLU_ARG_TYR', 'pair_CYS_CYS_bridge']
     pipe = ['propka/run.py:single', P + 'protonate_atom', P + 'trigonal', P + 'tetrahedral', P + 'add_proton', 'propka/group.py:*Group.setup_atoms',
